@@ -114,6 +114,44 @@ def replay_radius(data):
         frac[:len(cen)] = cen
     Z = list(data.get("Z", [6] * len(frac)))
     els = [Element[n] for n in Z]
+    # domain guard: the sites of the scenario must be distinct modulo the lattice (a counterexample whose centres are lattice
+    # translates of each other would put two atoms on one site)
+    # (a solver model may list the same site twice with different unwrapped coordinates, or take as missed image a lattice image
+    # of a centre itself.  A real structure lists every site once: a later centre that coincides with an earlier one is moved
+    # by 0.3 A -- the model keeps 5% of the radius as margin -- and a missed image that is an image of a listed site is not
+    # added as a further atom)
+    invD = np.linalg.inv(D)
+    ncen = len(data["centres"]) if data.get("centres") is not None else 0
+
+    def coincide(a, b):
+        dd = np.abs((a - np.floor(a)) - (b - np.floor(b)))
+        dd = np.minimum(dd, 1 - dd)
+        return np.linalg.norm(dd @ D) < 0.05
+    Z = list(data.get("Z", [6] * len(frac)))
+    keep = []
+    moved = {}
+    for i in range(len(frac)):
+        clash = [j for j in keep if coincide(frac[i], frac[j])]
+        if clash and i < ncen:
+            shift = (0.3 * np.array([0.6, 0.64, 0.48]) * (1 + 0.5 * i)) @ invD
+            frac[i] = frac[i] + shift
+            moved[i] = shift
+            keep.append(i)
+        elif clash:
+            continue            # an image of a listed site
+        else:
+            keep.append(i)
+    if moved and data.get("centres") is not None:
+        data = dict(data)
+        cen_ = np.array(data["centres"], float)
+        for i, sh in moved.items():
+            cen_[i] = cen_[i] + sh @ D
+        data["centres"] = cen_.tolist()
+    frac = frac[keep]
+    data = dict(data)
+    data["Z"] = [Z[i] for i in keep]
+    Z = list(data["Z"])
+    els = [Element[n] for n in Z]
     c = Crystal(uc, SpaceGroup(1), AsymmetricUnit(els, frac))
     r = float(data["r"])
     bad = []
@@ -350,7 +388,7 @@ def lemma_A(ctx, mods, only=None):
         for (name, i), rr in zip(cex_meta, cres):
             if rr.verdict == "cex" and name not in reported:
                 data = rr.model
-                data["which"] = name
+                data["which"] = name.split(" (")[0]
                 if ctx.violation("radius:frac_radius:%s" % name, "%s searches too few cells: an image within the radius lies outside the slab (axis %d)" % (name, i),
                                  data, replay_radius):
                     reported.add(name)
@@ -362,7 +400,7 @@ def lemma_A(ctx, mods, only=None):
                     if found:
                         break
                 if found and name not in reported:
-                    found["which"] = name
+                    found["which"] = name.split(" (")[0]
                     if ctx.violation("radius:frac_radius:%s" % name, "%s searches too few cells: an image within the radius lies outside the slab (axis %d)" % (name, i),
                                      found, replay_radius):
                         reported.add(name)
